@@ -670,6 +670,11 @@ Plan gen_C04(Gen &g, Plan p)
         main_logs(0, 2);
         p.main_ops.push_back(mkop("destroy"));
     }
+    if (p.target == "logger" && !p.main_ops.empty() && p.main_ops.back().kind == "destroy" && g.r.chance(1, 3)) {
+        int n = (int)g.r.range(1, 2);
+        for (int i = 0; i < n; i++)
+            p.main_ops.push_back(mkop("qtlog"));
+    }
     gen_sched(g, p, np + 1);
     return p;
 }
